@@ -411,8 +411,14 @@ def write_evidence(world, prop, tier, verif_seed, results, extra, known_hit, new
         "wall_s": round(wall, 2),
         "violations": len(new_violations),
     }
-    os.makedirs(os.path.join(VERIF_DIR, "evidence"), exist_ok=True)
-    path = os.path.join(VERIF_DIR, "evidence", f"{prop}.json")
+    # /verif/evidence describes /repo itself; a run against a scratch copy (a seeded change, a
+    # mutant) must not overwrite it
+    from .core import repo_path
+    ev_dir = os.path.join(VERIF_DIR, "evidence")
+    if os.path.realpath(repo_path()) != "/repo":
+        ev_dir = os.environ.get("VERIF_EVIDENCE_DIR") or "/tmp/verif-evidence-scratch"
+    os.makedirs(ev_dir, exist_ok=True)
+    path = os.path.join(ev_dir, f"{prop}.json")
     with open(path, "w") as f:
         json.dump(doc, f, indent=1, sort_keys=True, default=str)
     return path
